@@ -16,6 +16,12 @@ use crate::type_checker::type_check;
 use serde_json::{Value, json};
 use std::path::Path;
 
+/// Set in the forked child of a process-per-launch group: the repository's `evaluate` is called
+/// even when the step-budgeted pre-flight did not see the program terminate (the parent's
+/// wall-clock cap ends a launch that really diverges). Lets a change that makes divergent programs
+/// end - a loop detector, a fuel limit - be observed at all.
+pub static EVALUATE_EVEN_IF_CAPPED: std::sync::atomic::AtomicBool = std::sync::atomic::AtomicBool::new(false);
+
 /// Same as `main.rs STACK_SIZE`.
 pub const STACK_SIZE: usize = 16 * 1024 * 1024;
 
@@ -149,6 +155,8 @@ pub fn run_stub(path: &str, source: &str, step_budget: u64) -> Obs {
     drop(current);
 
     // The observation itself comes from the repository's real `evaluate`.
+    let force = EVALUATE_EVEN_IF_CAPPED.load(std::sync::atomic::Ordering::Relaxed);
+    let capped = capped && !force;
     let (stage, run_out, run_err, run_status) = if capped {
         ("evaluate", String::new(), String::new(), -1)
     } else {
